@@ -305,6 +305,7 @@ def parts(tier):
     from . import c02, c04
 
     return [
+        Part("nettable", check, cases=lambda: e2e.network_cases("nettable", tier), exhaustive=True),
         Part("na", check_na, strategy=c02.na_case().map(_ideal_na), budget=dict(quick=160, thorough=3000)),
         Part("tiptable", check, cases=lambda: c04.tip_cases(tier), exhaustive=True),
         Part("e2e", check, strategy=case(), budget=dict(quick=640, thorough=12000)),
